@@ -117,12 +117,14 @@ theorem convShoot_eq {ρ} (reqs : List Char → Option ρ) (sh : List Char) (acc
       | none => simp [errClass_notfound]
       | some r =>
         simp only [appendLoop, Int.one_mul, Int.sub_zero, Bool.false_eq_true, if_false, errClass_toomany]
-        -- the refusal (1eaf10a) in whatever arithmetic form the source states it: decided by `omega`
-        by_cases hc : it.cnt > maxScenarioRequests - (acc.length : Int)
-        · have hg : it.cnt > 1048576 - (acc.length : Int) := by unfold maxScenarioRequests at hc; omega
-          simp [hc, hg]
-        · have hg : ¬ it.cnt > 1048576 - (acc.length : Int) := by unfold maxScenarioRequests at hc; omega
-          by_cases hp : it.sleep > 0 <;> simp [hp, hc, hg]
+        -- the refusal in whatever (linear) arithmetic form the source states it: both conditions are split and the two
+        -- contradictory combinations are closed by `omega`
+        by_cases hp : it.sleep > 0 <;> simp only [hp, if_true, if_false] <;>
+          (split <;> split <;>
+            first
+              | rfl
+              | (exfalso; unfold maxScenarioRequests at *; omega)
+              | (simp))
 
 
 /-- `convertScenarioToAmmo` of the model is the loop over the regenerated body -/
